@@ -61,18 +61,14 @@ pub fn check(c: &LCase, st: &mut Stats) -> Result<(), String> {
     sig.add(c.in_use as u64).add(c.max as u64).add(c.fail as u64).add(c.base);
     if refused {
         st.class("refused");
-        let ok = match &res {
-            Err(Error::AlreadyUsed) => c.in_use,
-            Err(Error::InvalidParam) => too_small,
-            _ => false,
-        };
-        if !ok {
+        // the property says "refused", not with which error value
+        if res.is_ok() {
             return Err(format!(
                 "in_use={} max={} size={}: expected refusal ({}), got {:?}",
                 c.in_use,
                 c.max,
                 n,
-                if c.in_use && too_small { "AlreadyUsed or InvalidParam" } else if c.in_use { "AlreadyUsed" } else { "InvalidParam" },
+                if c.in_use && too_small { "in use and too small" } else if c.in_use { "in use" } else { "too small" },
                 res.as_ref().map(|_| "Ok(queue)")
             ));
         }
